@@ -29,7 +29,7 @@ enum OpKind {
 //   processIf: a = accept mask, c = predicate kind (0..6)
 //   copy/move/swap: a = other object
 enum { U_VARIANT = 0, U_FILL = 1, U_OBJECTS = 2 };
-enum { V_LIST = 0, V_LIST_SINGLE = 1, V_DISPATCHER = 2, V_QUEUE = 3, V_QUEUE_SINGLE = 4, V_QUEUE_INCLUDE_EVENT = 5, V_COUNT = 6 };
+enum { V_LIST = 0, V_LIST_SINGLE = 1, V_DISPATCHER = 2, V_QUEUE = 3, V_QUEUE_SINGLE = 4, V_QUEUE_INCLUDE_EVENT = 5, V_QUEUE_REF_PROTOS = 6, V_COUNT = 7 };
 enum Shape { S_NONE = 0, S_INT = 1, S_SHORT = 2, S_DOUBLE = 3, S_CSTR = 4, S_STRING = 5, S_TR_INT = 6, S_BIG = 7, S_COUNT = 8 };
 enum { NKIND = 9, NPRED = 7 };
 
@@ -750,54 +750,22 @@ struct IK0 : FBase { explicit IK0(int id) : FBase(id) {} void operator() (std::s
 struct IK1 : FBase { explicit IK1(int id) : FBase(id) {} void operator() (const std::string & s, int a) const { rep(1, strHash(s), a); } };
 struct IK2 : FBase { explicit IK2(int id) : FBase(id) {} void operator() (std::string s, const Tr & t) const { rep(2, strHash(s), trCanon(t)); } };
 
-struct IncInterp : Sink
+struct IncTraits
 {
 	typedef eventpp::HeterEventQueue<std::string, IncProtos, PolInclude> Q;
-	const Plan & plan;
-	seq::Violation viol;
-	Q * q;
-	std::vector<int> lists[NKEY][3];
-	Q::Handle handles[MAXSLOT];
-	int slotKey[MAXSLOT], slotProto[MAXSLOT]; bool slotIn[MAXSLOT], slotUsed[MAXSLOT];
-	struct PEv { int key, proto, v; };
-	std::vector<PEv> pending;
-	std::vector<Call> trace;
-	uint64_t logHash;
-	std::vector<long> passedPerOp;
-
-	explicit IncInterp(const Plan & p) : plan(p), q(nullptr), logHash(kHashInit)
+	enum { nproto = 3 };
+	static Q::Handle add(Q & q, int key, int proto, int cb, bool prepend)
 	{
-		for(int i = 0; i < MAXSLOT; ++i) { slotKey[i] = 0; slotProto[i] = 0; slotIn[i] = false; slotUsed[i] = false; handles[i] = Q::Handle(); }
+		const std::string k = incKey(key);
+		if(proto == 0) { IK0 f(cb); return prepend ? q.prependListener(k, f) : q.appendListener(k, f); }
+		if(proto == 1) { IK1 f(cb); return prepend ? q.prependListener(k, f) : q.appendListener(k, f); }
+		IK2 f(cb); return prepend ? q.prependListener(k, f) : q.appendListener(k, f);
 	}
-	void called(int cb, int proto, long a, long b) override
-	{
-		++counters.callbackCalls;
-		Call c; c.cb = cb; c.proto = proto; c.a = a; c.b = b; trace.push_back(c);
-		logHash = hashMix(logHash, (uint64_t)cb * 2654435761u + (uint64_t)proto * 97 + (uint64_t)a * 7 + (uint64_t)b);
-	}
-	bool predicate(int, int, long) override { return true; }
-
-	void expect(std::vector<Call> & want, int key, int proto, int v) const
-	{
-		for(size_t i = 0; i < lists[key][proto].size(); ++i) { Call c; c.cb = lists[key][proto][i]; c.proto = proto; c.a = strHash(incKey(key)); c.b = proto == 0 ? 0 : v; want.push_back(c); }
-	}
-	bool compare(const std::vector<Call> & want, const char * what)
-	{
-		bool ok = want.size() == trace.size();
-		for(size_t i = 0; ok && i < want.size(); ++i) if(want[i].cb != trace[i].cb || want[i].proto != trace[i].proto || want[i].a != trace[i].a || want[i].b != trace[i].b) ok = false;
-		if(!ok) {
-			std::ostringstream o, g;
-			for(size_t i = 0; i < want.size(); ++i) o << (i ? " " : "") << "cb" << want[i].cb << "/p" << want[i].proto << "(" << want[i].a << "," << want[i].b << ")";
-			for(size_t i = 0; i < trace.size(); ++i) g << (i ? " " : "") << "cb" << trace[i].cb << "/p" << trace[i].proto << "(" << trace[i].a << "," << trace[i].b << ")";
-			viol.raise("wrong-callbacks", std::string(what) + " (event included in the arguments): the callbacks invoked were [" + g.str() + "] but the model expects [" + o.str() + "] - the event key and every argument must arrive intact");
-		}
-		return ok;
-	}
+	static bool remove(Q & q, int key, const Q::Handle & h) { return q.removeListener(incKey(key), h); }
 	// form: 0 the key is an lvalue, 1 a temporary, 2 a moved local
-	void call(bool enqueue, int key, int proto, int v, int form)
+	static void call(Q * q, bool enqueue, int key, int proto, int v, int form)
 	{
 		std::string k = incKey(key);
-		FaultArm arm;
 		if(proto == 0) {
 			if(enqueue) { if(form == 0) q->enqueue(k); else if(form == 1) q->enqueue(incKey(key)); else q->enqueue(std::move(k)); }
 			else { if(form == 0) q->dispatch(k); else if(form == 1) q->dispatch(incKey(key)); else q->dispatch(std::move(k)); }
@@ -812,6 +780,88 @@ struct IncInterp : Sink
 			else { if(form == 0) q->dispatch(k, t); else if(form == 1) q->dispatch(incKey(key), Tr(3000, v)); else q->dispatch(std::move(k), t); }
 		}
 	}
+	static long expectA(int key, int, int) { return strHash(incKey(key)); }
+	static long expectB(int, int proto, int v) { return proto == 0 ? 0 : v; }
+	static const char * what() { return "(event included in the arguments)"; }
+};
+
+// ---------------------------------------------------------------- prototypes that differ only in how they take the same type
+// HeterEventQueue<int, {void(int &), void(int)}>: an lvalue argument selects the first prototype, an rvalue the second (the first is not
+// callable with it). enqueue stores a decayed copy; the event must still reach the callbacks of the prototype selected by the CALLER'S
+// argument types - selecting again from the stored type at processing time gives the other prototype.
+typedef eventpp::HeterTuple<void (int &), void (int)> RefProtos;
+struct RK0 : FBase { explicit RK0(int id) : FBase(id) {} void operator() (int & a) const { rep(0, a, 0); } };
+struct RK1 : FBase { explicit RK1(int id) : FBase(id) {} void operator() (int && a) const { rep(1, a, 0); } };   // callable with an rvalue only: bound to void(int)
+struct RefTraits
+{
+	typedef eventpp::HeterEventQueue<int, RefProtos> Q;
+	enum { nproto = 2 };
+	static Q::Handle add(Q & q, int key, int proto, int cb, bool prepend)
+	{
+		if(proto == 0) { RK0 f(cb); return prepend ? q.prependListener(key, f) : q.appendListener(key, f); }
+		RK1 f(cb); return prepend ? q.prependListener(key, f) : q.appendListener(key, f);
+	}
+	static bool remove(Q & q, int key, const Q::Handle & h) { return q.removeListener(key, h); }
+	static void call(Q * q, bool enqueue, int key, int proto, int v, int)
+	{
+		int lv = v;
+		if(proto == 0) { if(enqueue) q->enqueue(key, lv); else q->dispatch(key, lv); }
+		else { if(enqueue) q->enqueue(key, v + 0); else q->dispatch(key, v + 0); }
+	}
+	static long expectA(int, int, int v) { return v; }
+	static long expectB(int, int, int) { return 0; }
+	static const char * what() { return "(prototypes void(int &) and void(int): lvalue arguments select the first, rvalues the second)"; }
+};
+
+template <typename TR>
+struct MiniInterp : Sink
+{
+	typedef typename TR::Q Q;
+	const Plan & plan;
+	seq::Violation viol;
+	Q * q;
+	std::vector<int> lists[NKEY][3];
+	typename Q::Handle handles[MAXSLOT];
+	int slotKey[MAXSLOT], slotProto[MAXSLOT]; bool slotIn[MAXSLOT], slotUsed[MAXSLOT];
+	struct PEv { int key, proto, v; };
+	std::vector<PEv> pending;
+	std::vector<Call> trace;
+	uint64_t logHash;
+	std::vector<long> passedPerOp;
+
+	explicit MiniInterp(const Plan & p) : plan(p), q(nullptr), logHash(kHashInit)
+	{
+		for(int i = 0; i < MAXSLOT; ++i) { slotKey[i] = 0; slotProto[i] = 0; slotIn[i] = false; slotUsed[i] = false; handles[i] = typename Q::Handle(); }
+	}
+	void called(int cb, int proto, long a, long b) override
+	{
+		++counters.callbackCalls;
+		Call c; c.cb = cb; c.proto = proto; c.a = a; c.b = b; trace.push_back(c);
+		logHash = hashMix(logHash, (uint64_t)cb * 2654435761u + (uint64_t)proto * 97 + (uint64_t)a * 7 + (uint64_t)b);
+	}
+	bool predicate(int, int, long) override { return true; }
+
+	void expect(std::vector<Call> & want, int key, int proto, int v) const
+	{
+		for(size_t i = 0; i < lists[key][proto].size(); ++i) { Call c; c.cb = lists[key][proto][i]; c.proto = proto; c.a = TR::expectA(key, proto, v); c.b = TR::expectB(key, proto, v); want.push_back(c); }
+	}
+	bool compare(const std::vector<Call> & want, const char * what)
+	{
+		bool ok = want.size() == trace.size();
+		for(size_t i = 0; ok && i < want.size(); ++i) if(want[i].cb != trace[i].cb || want[i].proto != trace[i].proto || want[i].a != trace[i].a || want[i].b != trace[i].b) ok = false;
+		if(!ok) {
+			std::ostringstream o, g;
+			for(size_t i = 0; i < want.size(); ++i) o << (i ? " " : "") << "cb" << want[i].cb << "/p" << want[i].proto << "(" << want[i].a << "," << want[i].b << ")";
+			for(size_t i = 0; i < trace.size(); ++i) g << (i ? " " : "") << "cb" << trace[i].cb << "/p" << trace[i].proto << "(" << trace[i].a << "," << trace[i].b << ")";
+			viol.raise("wrong-callbacks", std::string(what) + " " + TR::what() + ": the callbacks invoked were [" + g.str() + "] but the model expects [" + o.str() + "] - the event key and every argument must arrive intact");
+		}
+		return ok;
+	}
+	void call(bool enqueue, int key, int proto, int v, int form)
+	{
+		FaultArm arm;
+		TR::call(q, enqueue, key, proto, v, form);
+	}
 	void doOp(const Op & op)
 	{
 		if(viol.set) return;
@@ -822,13 +872,10 @@ struct IncInterp : Sink
 		case O_APPEND: case O_PREPEND: case O_INSERT: {
 			const int cb = op.a;
 			if(cb < 0 || cb >= MAXSLOT - 2 || slotUsed[cb]) return;
-			const int proto = ((op.c & 15) % 3);
+			const int proto = ((op.c & 15) % 3) % TR::nproto;
 			{
 				FaultArm arm;
-				const std::string k = incKey(key);
-				if(proto == 0) { IK0 f(cb); handles[cb] = op.k == O_PREPEND ? q->prependListener(k, f) : q->appendListener(k, f); }
-				else if(proto == 1) { IK1 f(cb); handles[cb] = op.k == O_PREPEND ? q->prependListener(k, f) : q->appendListener(k, f); }
-				else { IK2 f(cb); handles[cb] = op.k == O_PREPEND ? q->prependListener(k, f) : q->appendListener(k, f); }
+				handles[cb] = TR::add(*q, key, proto, cb, op.k == O_PREPEND);
 			}
 			slotUsed[cb] = true; slotIn[cb] = true; slotKey[cb] = key; slotProto[cb] = proto;
 			if(op.k == O_PREPEND) lists[key][proto].insert(lists[key][proto].begin(), cb); else lists[key][proto].push_back(cb);
@@ -839,13 +886,13 @@ struct IncInterp : Sink
 			if(slot < 0 || slot >= MAXSLOT || !slotUsed[slot]) return;
 			const bool expected = slotIn[slot];
 			bool got;
-			{ FaultArm arm; got = q->removeListener(incKey(slotKey[slot]), handles[slot]); }
+			{ FaultArm arm; got = TR::remove(*q, slotKey[slot], handles[slot]); }
 			if(expected) { std::vector<int> & l = lists[slotKey[slot]][slotProto[slot]]; l.erase(std::find(l.begin(), l.end(), slot)); slotIn[slot] = false; }
 			if(got != expected) viol.raise("remove-result", "removeListener returned " + std::string(got ? "true" : "false"));
 			break;
 		}
 		case O_INVOKE: {
-			const int proto = ((op.c % 3) + 3) % 3, form = ((op.c / 8) % 3 + 3) % 3, v = 100 + (op.a % 5000);
+			const int proto = (((op.c % 3) + 3) % 3) % TR::nproto, form = ((op.c / 8) % 3 + 3) % 3, v = 100 + (op.a % 5000);
 			++counters.invocations;
 			std::vector<Call> want; expect(want, key, proto, v);
 			call(false, key, proto, v, form);
@@ -853,7 +900,7 @@ struct IncInterp : Sink
 			break;
 		}
 		case O_ENQ: {
-			const int proto = ((op.c % 3) + 3) % 3, form = ((op.c / 8) % 3 + 3) % 3, v = 100 + (op.a % 5000);
+			const int proto = (((op.c % 3) + 3) % 3) % TR::nproto, form = ((op.c / 8) % 3 + 3) % 3, v = 100 + (op.a % 5000);
 			call(true, key, proto, v, form);
 			PEv e; e.key = key; e.proto = proto; e.v = v; pending.push_back(e);
 			++counters.enqueued;
@@ -911,7 +958,7 @@ struct IncInterp : Sink
 		doOp(Op(O_PROCESS));
 		if(viol.set) return;
 		delete q; q = nullptr;
-		for(int s2 = 0; s2 < MAXSLOT; ++s2) handles[s2] = Q::Handle();
+		for(int s2 = 0; s2 < MAXSLOT; ++s2) handles[s2] = typename Q::Handle();
 		if(ledger().liveTotal() != 0) viol.raise("leak", "tracked objects alive after destruction");
 	}
 };
@@ -958,14 +1005,15 @@ void runBox(const Plan & plan, RunOut & out)
 	out.caseHash = hashMix(ch, (uint64_t)plan.user(U_VARIANT));
 }
 
-inline void runInclude(const Plan & plan, RunOut & out)
+template <typename TR>
+inline void runMini(const Plan & plan, RunOut & out)
 {
 	const bool faultMode = engine::mode == "c09";
 	struct One
 	{
 		static void run(const Plan & plan, const std::vector<int> & faults, RunOut & out, std::vector<long> * passed, uint64_t * lh)
 		{
-			IncInterp * in = new IncInterp(plan);
+			MiniInterp<TR> * in = new MiniInterp<TR>(plan);
 			g_sink = in;
 			in->execute(faults);
 			if(in->viol.set) out.fail(in->viol.cls, in->viol.detail);
@@ -1008,7 +1056,9 @@ void runVariant3(const Plan & p, RunOut & o) { runBox<DispBox<PolDefault, true> 
 #elif SEQ_VARIANT == 4
 void runVariant4(const Plan & p, RunOut & o) { runBox<DispBox<PolSingle, true> >(p, o); }
 #elif SEQ_VARIANT == 5
-void runVariant5(const Plan & p, RunOut & o) { runInclude(p, o); }
+void runVariant5(const Plan & p, RunOut & o) { runMini<IncTraits>(p, o); }
+#elif SEQ_VARIANT == 6
+void runVariant6(const Plan & p, RunOut & o) { runMini<RefTraits>(p, o); }
 #endif
 
 } // namespace sh
@@ -1020,6 +1070,7 @@ Sink * g_sink = nullptr;
 Counters counters;
 void runVariant0(const Plan &, RunOut &); void runVariant1(const Plan &, RunOut &); void runVariant2(const Plan &, RunOut &);
 void runVariant3(const Plan &, RunOut &); void runVariant4(const Plan &, RunOut &); void runVariant5(const Plan &, RunOut &);
+void runVariant6(const Plan &, RunOut &);
 }
 
 namespace engine {
@@ -1038,7 +1089,7 @@ void generate(uint64_t seed, Plan & plan)
 	const int variant = (int)rng.below(V_COUNT);
 	plan.user(U_VARIANT) = variant;
 	const bool queue = variant >= V_QUEUE, keys = variant >= V_DISPATCHER;
-	const bool include = variant == V_QUEUE_INCLUDE_EVENT;
+	const bool include = variant >= V_QUEUE_INCLUDE_EVENT;   // the two small interpreters share the shape encoding
 	const int nObj = (pool && !include) ? 2 + (int)rng.below(2) : 1;
 	plan.user(U_OBJECTS) = pool ? 1 + (int)rng.below((uint32_t)std::min(nObj, (int)MAXOBJ)) : 1;
 	plan.user(U_FILL) = 4;
@@ -1100,7 +1151,7 @@ void execute(const Plan & plan, RunOut & out)
 	const int v = plan.user(sh::U_VARIANT);
 	switch(v) {
 	case 0: sh::runVariant0(plan, out); break; case 1: sh::runVariant1(plan, out); break; case 2: sh::runVariant2(plan, out); break;
-	case 3: sh::runVariant3(plan, out); break; case 4: sh::runVariant4(plan, out); break; default: sh::runVariant5(plan, out); break;
+	case 3: sh::runVariant3(plan, out); break; case 4: sh::runVariant4(plan, out); break; case 6: sh::runVariant6(plan, out); break; default: sh::runVariant5(plan, out); break;
 	}
 	++sh::counters.plans;
 	if(v >= 0 && v < sh::V_COUNT) ++sh::counters.perVariant[v];
@@ -1115,7 +1166,8 @@ void execute(const Plan & plan, RunOut & out)
 
 std::string describe(const Plan & plan)
 {
-	static const char * vn[] = { "HeterCallbackList", "HeterCallbackList/SingleThreading", "HeterEventDispatcher", "HeterEventQueue", "HeterEventQueue/SingleThreading", "HeterEventQueue<std::string>/ArgumentPassingIncludeEvent" };
+	static const char * vn[] = { "HeterCallbackList", "HeterCallbackList/SingleThreading", "HeterEventDispatcher", "HeterEventQueue", "HeterEventQueue/SingleThreading", "HeterEventQueue<std::string>/ArgumentPassingIncludeEvent",
+		"HeterEventQueue<int, {void(int&), void(int)}>" };
 	static const char * names[] = { "?", "append", "prepend", "insert", "remove", "empty", "forEach", "invoke", "enqueue", "process", "processOne", "processIf", "clearEvents", "emptyQueue",
 		"copyConstruct", "copyAssign", "moveConstruct", "moveAssign", "swap", "destroy", "create" };
 	static const char * shapes[] = { "()", "(int)", "(short)", "(double)", "(const char*)", "(string)", "(Tr,int)", "(Big)" };
